@@ -445,6 +445,7 @@ func (w *world) opAckBelowHeld() {
 	if gc {
 		before := w.pageOf[lowest]
 		w.q.GC()
+		w.noteGC()
 		w.noteHeld("gc")
 		if p, ok := w.pageOf[to]; ok && p == before && p > 0 {
 			// the collector may have removed earlier data pages; the held ones live in the page of the acknowledged message
